@@ -468,6 +468,38 @@ func r13_5(c *RC) {
 // Lock() on the given mutex field that dominates `at`, and no Unlock() on it
 // lies on a path from that Lock to `at`.
 func lockHeldAt(fn *ssa.Function, at ssa.Instruction, mu *types.Var) bool {
+	if lockHeldLocal(fn, at, mu) {
+		return true
+	}
+	// an unexported helper that is only ever called with the lock held
+	return heldByAllCallers(fn, mu, 0)
+}
+
+func heldByAllCallers(fn *ssa.Function, mu *types.Var, d int) bool {
+	if gProg == nil || d >= 2 || fn == nil || fn.Parent() != nil || fn.Object() == nil || fn.Object().Exported() {
+		return false
+	}
+	n := 0
+	for _, cs := range gProg.CallsToFn(fn) {
+		if strings.HasSuffix(strings.SplitN(gProg.Pos(cs.Pos()), ":", 2)[0], "_test.go") {
+			continue
+		}
+		if _, isGo := cs.Instr.(*ssa.Go); isGo {
+			return false
+		}
+		n++
+		if !lockHeldLocal(cs.Fn, cs.Instr, mu) && !heldByAllCallers(cs.Fn, mu, d+1) {
+			return false
+		}
+	}
+	return n > 0
+}
+
+// gProg is the program under analysis (set by runProperty); used by helpers
+// whose signature predates interprocedural reasoning.
+var gProg *Prog
+
+func lockHeldLocal(fn *ssa.Function, at ssa.Instruction, mu *types.Var) bool {
 	isMu := func(in ssa.Instruction, method string) bool {
 		cl, ok := in.(ssa.CallInstruction)
 		if !ok {
